@@ -215,6 +215,9 @@ pub enum Op {
     /// through the administrator's connection: whatever background work the send left behind (a batch on its
     /// way to the file under no-wait confirmation, a segment being closed) meets the deletion of its segment
     SendThenPurge { stream: IdRef, topic: IdRef, partition: u32, msgs: Vec<MsgSpec> },
+    /// a send to an explicit partition followed *at once* (no quiescence in between) by a graceful stop and a
+    /// start: what was acknowledged must survive a clean restart whatever background work it left behind
+    SendThenRestart { stream: IdRef, topic: IdRef, partition: u32, msgs: Vec<MsgSpec>, kind: StopKind },
     /// every kind of request on a fresh connection that never authenticated
     UnauthProbe { which: u32 },
     /// malformed frames on a fresh connection, derived from `seed`
@@ -233,6 +236,7 @@ impl Op {
             Op::DeleteTopic { .. } => "delete_topic",
             Op::PurgeTopic { .. } => "purge_topic",
             Op::SendThenPurge { .. } => "send_then_purge",
+            Op::SendThenRestart { .. } => "send_then_restart",
             Op::CreatePartitions { .. } => "create_partitions",
             Op::DeletePartitions { .. } => "delete_partitions",
             Op::CreateGroup { .. } => "create_group",
